@@ -9,7 +9,8 @@ use image::RgbaImage;
 use serde_json::json;
 
 fn gen_image(t: &mut Tape, colors: &[[u8; 3]]) -> RgbaImage {
-    let (w, h) = match t.below(8) {
+    let (w, h) = match if t.chance(1, 40) { 9 } else { t.below(8) } {
+        9 => (126 + t.below(80), 125 + t.below(80)),
         0 => (1, 1),
         1 => (1, 1 + t.below(40)),
         2 => (1 + t.below(40), 1),
